@@ -153,7 +153,8 @@ class ArrayCache(object):
         self._h = call("v_cache_new", [], [self._token]).i
 
     def __del__(self):
-        _release(self._h)
+        if getattr(self, "_h", None) is not None:
+            _release(self._h)
 
     @property
     def _state(self):
@@ -220,7 +221,8 @@ class _GeneratorState(object):
 
 class _GeneratorBase(object):
     def __del__(self):
-        _release(self._h)
+        if getattr(self, "_h", None) is not None:
+            _release(self._h)
 
     @property
     def form(self):
@@ -458,7 +460,8 @@ class IrregularlyPartitionedArray(PartitionedArray):
             self._h = call("p_new", [p._h for p in parts], [1] + [int(s) for s in stops]).i
 
     def __del__(self):
-        _release(self._h)
+        if getattr(self, "_h", None) is not None:
+            _release(self._h)
 
     def __repr__(self):
         return result_str(call("p_tostring", [self._h]))
